@@ -28,6 +28,7 @@ MANIFEST = dict(
     note=("ConvexPolygon.move is proved for n = 3..7 (thorough ..8) for the receiver's state (vertices, plane, centre; the returned object is what the constructor builds from the receiver's new vertices - the constructor enters by that contract); "
           "ConvexPolyhedron.move (rebuilds hash sets and pyramids) and mixed histories of 1-6 moves interleaved with deep copies and queries (==, hash, membership, intersection, measures, volume()) on all seven types, receiver and returned object "
           "against freshly constructed objects, are a labelled bounded stand-in (not counted as proved). A1, A5."),
+    technique='contract-based deductive verification of move() attribute-wise against fresh construction (z3) + labelled bounded move histories against freshly constructed objects',
     design_ref="DESIGN.md section 9 (C07)",
 )
 EXPLANATION = "move contracts proved attribute-wise against the fresh construction; history claims follow by induction from the re-established invariant"
